@@ -128,7 +128,7 @@ def oracle(program, blocksize):
                     shared = sum(1 for x in ents if x['blob'] == w['blob'])
                     failures.append(('C11/%s/rba-not-boot-file/%s' % (tag, 'shared-boot-file' if shared > 1 else ('unlinked' if not b.names else 'plain')), 'rba',
                                      'entry RBA %d does not hold the bytes of the chosen boot file (%d bytes)' % (g['rba'], b.length)))
-                elif b.bit and b.length >= 64:
+                elif b.bit is True and b.length >= 64:
                     want_bit = bit_expected(data, info['pvds'][0]['sector'], g['rba'])
                     if stored[8:64] != want_bit:
                         failures.append(('C11/boot-info-table/stored', 'boot-info-table',
@@ -151,7 +151,7 @@ def oracle(program, blocksize):
                 failures.append(('C11/catalog-as-file/%s/%s' % (ns, exc_signature(e)), 'catalog-file', 'reading the boot catalog through %s=%r raised %s: %s' % (key, p[:50], type(e).__name__, e)))
         for w in ents:
             b = m.blobs.get(w['blob'])
-            if b is None or not b.bit or b.length < 64 or b.length > (4 << 20):
+            if b is None or b.bit is not True or b.length < 64 or b.length > (4 << 20):
                 continue
             data = content(b.id, b.length, b.ckind)
             for ns, p in sorted(b.names):
